@@ -193,10 +193,35 @@ class ReasonRule(S.SeqRule):
             return tuple(sorted(u.items(), key=str))
         return None
 
+    def reason_helpers(self):
+        """static functions that store one of their parameters as the sticky reason: name -> parameter index"""
+        if not hasattr(self, "_rh"):
+            self._rh = {}
+            for g in self.prog.functions:
+                if not g.static or g.file != self.root.file:
+                    continue
+                for b, i, e, lhs, rhs, op in g.stores():
+                    if rhs is not None and op == "=" and g.fields_of(lhs)[-1:] == ("badness_reason",):
+                        rn = g.nodes[g.origin(rhs)]
+                        if rn["k"] == "ref" and rn.get("dk") == "param":
+                            self._rh[g.name] = [k for k, p_ in enumerate(g.params) if p_["name"] == rn["name"]][0]
+        return self._rh
+
+    def on_call(self, fn, st, nid, callees, exts):
+        nm = fn.nodes[nid].get("callee") or ""
+        rh = self.reason_helpers()
+        if nm in rh and rh[nm] < len(fn.nodes[nid]["args"]) and nm != fn.name:
+            # track_fail_connect(track, reason): the argument is what becomes the sticky reason
+            self._judge(fn, st, nid, fn.nodes[nid]["args"][rh[nm]])
+        return None
+
     def on_store(self, fn, st, nid, lhs, rhs, op):
         fl = fn.fields_of(lhs)
         if not fl or fl[-1] != "badness_reason" or op != "=" or rhs is None:
             return None
+        return self._judge(fn, st, nid, rhs)
+
+    def _judge(self, fn, st, nid, rhs):
         self.n += 1
         key = "%s:%s" % (fn.name, fn.show(rhs))
         cv = C.const_of(fn, rhs)
@@ -209,7 +234,7 @@ class ReasonRule(S.SeqRule):
             return None
         if fn.show(rhs) == "errno":
             src, conf, fact = st.errno
-            if conf and src not in ("entry",):
+            if conf and src not in ("entry", "assigned"):
                 self.rule.ok("%s: badness_reason = errno right after the observed failure" % fn.qname, "errno source tracking")
             elif (fn.name, "direct") not in self.seen:
                 self.seen.add((fn.name, "direct"))
@@ -246,12 +271,27 @@ class ReasonRule(S.SeqRule):
         return None
 
 
+def retry_helpers(P):
+    """static functions of tconnect.c that store a parameter as the failure reason and then move on to the next address"""
+    out = set()
+    for g in P.fns_in("tcp/tconnect.c"):
+        if not g.static or not any(True for _ in g.calls("track_connect_next")):
+            continue
+        for b, i, e, lhs, rhs, op in g.stores():
+            if rhs is not None and g.fields_of(lhs)[-1:] == ("badness_reason",):
+                rn = g.nodes[g.origin(rhs)]
+                if rn["k"] == "ref" and rn.get("dk") == "param":
+                    out.add(g.name)
+    return out
+
+
 class RetryRule(C.Rule):
     """tconnect: a call that moves on to the next address happens only after
     the failure reason was stored (or right after the attempt state was entered)"""
 
-    def __init__(self, rule, target):
+    def __init__(self, rule, target, helpers=()):
         self.rule, self.target = rule, target
+        self.helpers = set(helpers)        # helpers that record the reason they are given and then move on
         self.n = 0
 
     def initial(self, fn):
@@ -265,6 +305,10 @@ class RetryRule(C.Rule):
                 return True
             if fl and fl[-1] == "state" and enum_name(fn, n["r"]) == "track_state_connecting":
                 return True
+        if n["k"] == "call" and n.get("callee") in self.helpers:
+            self.n += 1
+            self.rule.ok("%s: the failure reason and the move to the next address go through %s" % (fn.name, n["callee"]), "helper that stores its reason argument first")
+            return True
         if n["k"] == "call" and n.get("callee") == self.target:
             self.n += 1
             if st:
@@ -459,10 +503,11 @@ def run(ctx):
             r3.violation("%s:ssl_errno" % g.name, "process_ssl_event receives %s, not a captured errno" % g.show(g.nodes[call]["args"][3]), loc=g.loc(call))
     # tconnect retries
     nretry = 0
+    rh = retry_helpers(P)
     for f in P.fns_in("tcp/tconnect.c"):
-        if any(True for c in f.calls("track_connect_next")):
+        if any(True for c in f.calls("track_connect_next")) or any((f.nodes[c].get("callee") or "") in rh for c in f.calls()):
             r3.instance("%s: retry" % f.name)
-            rr = RetryRule(r3, "track_connect_next")
+            rr = RetryRule(r3, "track_connect_next", rh)
             C.explore(f, rr)
             nretry += rr.n
     if nretry < 6:
